@@ -186,6 +186,9 @@ def run_scenario(dist, cfg, attach_at, vals, reattach=0, expr_guard=False, two=F
         if reattach >= 2:
             p.impl.sm.add_listener(ls[0])      # a constructor listener added again later
             p.impl.sm.add_listener(ls[1], ls[1])
+            # the two built-in providers attached once more as ordinary listeners
+            p.impl.sm.add_listener(p.impl.sm.model)
+            p.impl.sm.add_listener(p.impl.sm)
         insts.append(p)
     steps = 1
     typed = {}
